@@ -463,10 +463,14 @@ func (g *gen) needSprintv() {
 	it := g.sorts.typeTag(types.Typ[types.Int])
 	it64 := g.sorts.typeTag(types.Typ[types.Int64])
 	st := g.sorts.typeTag(types.Typ[types.String])
+	var moreInts []string // %v of every integer kind is its decimal text
+	for _, k := range []types.BasicKind{types.Uint, types.Uint64, types.Int32, types.Uint32, types.Int16, types.Uint16, types.Int8, types.Uint8} {
+		moreInts = append(moreInts, fmt.Sprintf("(= (i.typ x) %s)", g.sorts.typeTag(types.Typ[k])))
+	}
 	g.sorts.boxSorts["String"] = true
 	g.vc.Decls = append(g.vc.Decls, "(declare-fun sprintv (Iface) String)")
 	g.vc.Asserts = append(g.vc.Asserts,
-		fmt.Sprintf("(forall ((x Iface)) (! (and (=> (or (= (i.typ x) %s) (= (i.typ x) %s)) (= (sprintv x) (itoa (i.val x)))) (=> (= (i.typ x) %s) (= (sprintv x) (unbox.String (i.val x))))) :pattern ((sprintv x))))", it, it64, st),
+		fmt.Sprintf("(forall ((x Iface)) (! (and (=> (or (= (i.typ x) %s) (= (i.typ x) %s) %s) (= (sprintv x) (itoa (i.val x)))) (=> (= (i.typ x) %s) (= (sprintv x) (unbox.String (i.val x))))) :pattern ((sprintv x))))", it, it64, strings.Join(moreInts, " "), st),
 		"(forall ((i Int)) (! (= (box.String (unbox.String i)) i) :pattern ((unbox.String i))))",
 	)
 }
